@@ -44,7 +44,7 @@ STORE_NOTE = "Single-threaded step driving through the rescrv_blue_verif hooks (
 CHECKS["C01"] = dict(
     engine="store-driver",
     category="exploration",
-    text="Model-based generated-history search: thousands of generated histories per quick run over both store surfaces and generated option settings drive the real store through flushes, trivial moves, merges, GCs, verifier passes and reopen (all 16 levels get occupied), and every universe key is read back against a sequential map model after every checked operation. Histories x configurations is unbounded, so generated exploration with measured shape coverage is the right level; it cannot show absence.",
+    text="Model-based generated-history search: thousands of generated histories per quick run over both store surfaces and generated option settings drive the real store through flushes, trivial moves, merges, GCs, verifier passes and reopen (all 16 levels get occupied), and every universe key is read back against a sequential map model after every checked operation. Histories x configurations is unbounded, so generated exploration with measured shape coverage is the right level; it cannot show absence. Also: LsmTree::get cross-checked with load; reads in the middle of a memtable flush (guard-only yield points: data only in the immutable memtable / in immutable memtable and new sst); the same directory switched between the KeyValueStore and LsmTree surfaces inside a history.",
     design_ref="DESIGN.md §5 C01",
     note=STORE_NOTE,
     technique="stateful property-based testing (proptest op sequences + interpreter) against a sequential map model",
@@ -52,7 +52,7 @@ CHECKS["C01"] = dict(
 CHECKS["C03"] = dict(
     engine="store-driver",
     category="exploration",
-    text="The C01 history search plus scan probes: generated bounds pairs (all nine bound-kind combinations, empty and inverted ranges) and generated cursor programs are compared call by call with a reference cursor over the model's live keys; each probe also walks the whole range forward and backward and cross-checks every returned key with a point read.",
+    text="The C01 history search plus scan probes: generated bounds pairs (all nine bound-kind combinations, empty and inverted ranges) and generated cursor programs are compared call by call with a reference cursor over the model's live keys; each probe also walks the whole range forward and backward and cross-checks every returned key with a point read. Also: full scans in the middle of a memtable flush and surface switching as in C01.",
     design_ref="DESIGN.md §5 C03",
     note=STORE_NOTE + " Scan timestamps are not compared (assigned by the store).",
     technique="stateful property-based testing with a reference-cursor oracle and a scan-vs-get differential",
@@ -61,7 +61,7 @@ CHECKS["C03"] = dict(
 CHECKS["C05"] = dict(
     engine="store-driver",
     category="exploration",
-    text="Store level: every compaction step of generated histories is bracketed by a full multi-version dump of all live ssts; non-GC steps must conserve the multiset exactly, GC steps may only drop entries the configured policy does not require (independent reading of the documented policy language) and never the deciding value of a key. Unit level: hundreds of thousands of generated (policy, per-key version pattern, now) cases drive GarbageCollectionPolicy::collector directly against the same independent reading.",
+    text="Store level: every compaction step of generated histories is bracketed by a full multi-version dump of all live ssts; non-GC steps must conserve the multiset exactly, GC steps may only drop entries the configured policy does not require (independent reading of the documented policy language) and never the deciding value of a key. Unit level: hundreds of thousands of generated (policy, per-key version pattern, now) cases drive GarbageCollectionPolicy::collector directly against the same independent reading. Also after every compaction step: level-order invariant (no version of a key in a deeper level is newer than one in a shallower level) and no-resurrection (a current read of every key returns what it returned before the collection, or nothing), at unit and store level.",
     design_ref="DESIGN.md §5 C05",
     note=STORE_NOTE + " Retaining more than required is allowed (sst::gc module docs), so the GC oracle is one-directional on purpose. Which step is a GC is reported by a guard-only hook.",
     technique="stateful property-based testing with a multiset-conservation invariant and a reference policy evaluator",
@@ -77,7 +77,7 @@ CHECKS["C07"] = dict(
 CHECKS["C08"] = dict(
     engine="store-driver",
     category="exploration",
-    text="Generated histories with many verifier passes, reopens (orphan clean-up) and cursors held across retirements; after every operation every sst named by the live tree and by an independent parse of the manifest must exist in sst/, a verifier pass must not change sst/ nor remove the live MANIFEST, and the full read-back must still equal the model.",
+    text="Generated histories with many verifier passes, reopens (orphan clean-up) and cursors held across retirements; after every operation every sst named by the live tree and by an independent parse of the manifest must exist in sst/, a verifier pass must not change sst/ nor remove the live MANIFEST, and the full read-back must still equal the model. A verifier pass may unlink only trash ssts whose removal is recorded in a manifest fragment it processed in that pass. Every recovered image of the crash part gets follow-up writes, flushes, compaction and another reopen.",
     design_ref="DESIGN.md §5 C08",
     note=STORE_NOTE + " Crash points inside verifier passes and trash moves are explored by the C02 fault enumerator.",
     technique="stateful property-based testing with a file-presence invariant and model read-back",
@@ -103,7 +103,7 @@ CHECKS["C18"] = dict(
 CHECKS["C02"] = dict(
     engine="sysshim",
     category="fault_enumeration",
-    text="Fault enumeration over generated histories: an in-binary libc shim numbers every file-system mutating call the store issues; each history is re-executed in a child process and killed before call k (every k in the thorough tier and for short histories, a class-stratified sample otherwise) under persistence models (a), (b) lose-all and (b) torn, and with call k failing with EIO / ENOSPC; a fresh process reopens the image and its contents (point reads and full scan, before and after a verifier pass and another reopen) must equal the model after the acknowledged ops, optionally plus the one in-flight op. The space of crash points of one history is enumerated exhaustively in the thorough tier; histories and configurations are sampled.",
+    text="Fault enumeration over generated histories: an in-binary libc shim numbers every file-system mutating call the store issues; each history is re-executed in a child process and killed before call k (every k in the thorough tier and for short histories, a class-stratified sample otherwise) under persistence models (a), (b) lose-all and (b) torn, and with call k failing with EIO / ENOSPC; a fresh process reopens the image and its contents (point reads and full scan, before and after a verifier pass and another reopen) must equal the model after the acknowledged ops, optionally plus the one in-flight op. The space of crash points of one history is enumerated exhaustively in the thorough tier; histories and configurations are sampled. Fault modes are drawn independently of the call index (all modes at every point in the thorough tier); a fault inside an operation that still reports success kills the process right after that operation (a swallowed error cannot be masked by a later sync); go-on modes: the error is reported, the history continues and the process dies at its end - per key the recovered value must be that of the last acknowledged write or of a later failed one; every recovered image gets follow-up writes, flushes, compaction steps and another reopen (life after recovery).",
     design_ref="DESIGN.md §5 C02",
     note="Directory-entry durability is not modelled (neither persistence model of the property loses directory operations). The shim relies on std and sst calling libc through the PLT (verified: counts and traces are produced). Recovered images satisfying the R-D predicate are excluded and counted.",
     technique="fault injection / crash-point enumeration over property-based generated histories, with a sequential model oracle",
@@ -111,7 +111,7 @@ CHECKS["C02"] = dict(
 CHECKS["C13"] = dict(
     engine="sysshim",
     category="fault_enumeration",
-    text="Three parts over generated edit / rollover / reopen sequences with adversarial strings: a fault-free model comparison (plus Manifest::verify and an independent fragment-chain parser), truncation of the live MANIFEST at every byte (small files) or generated bytes, and crash enumeration under the libc shim before every mutating call of apply and rollover in persistence models (a), (b) lose-all, (b) torn; reopening must yield a prefix state that contains every acknowledged edit, or (cuts inside a write only) an explicit error.",
+    text="Three parts over generated edit / rollover / reopen sequences with adversarial strings: a fault-free model comparison (plus Manifest::verify and an independent fragment-chain parser), truncation of the live MANIFEST at every byte (small files) or generated bytes, and crash enumeration under the libc shim before every mutating call of apply and rollover in persistence models (a), (b) lose-all, (b) torn; reopening must yield a prefix state that contains every acknowledged edit, or (cuts inside a write only) an explicit error. Every cut / crash image that opens also gets two follow-up edits and two more reopens (life after recovery); edits include removals of absent strings and remove-and-re-add of a present string.",
     design_ref="DESIGN.md §5 C13",
     note="Info keys are ASCII; '+' and '-' as info keys are out of domain; directory operations are durable once they return.",
     technique="property-based testing against a set/map model plus crash-point and truncation enumeration",
@@ -136,10 +136,10 @@ CHECKS["C15"] = dict(
 CHECKS["C04"] = dict(
     engine="store-driver",
     category="exploration",
-    text="Accept half: after every operation of generated histories (rollover ratios 1, 2, 8) an independent parser re-checks every manifest fragment: input == previous output, input == output + discard, discard == sum(removed) - sum(added), fragments chain through their roll-ups, final output == sum of listed digests, and each listed sst's name, stored setsum and setsum recomputed from a full walk agree; every verifier pass must accept or back off. Reject half: one hex digit of one recorded digest (+, -, I, O, D of a non-roll-up transaction) is altered with the line CRC fixed up; ManifestVerifier must reject the fragment and, when the offline verifier processes that fragment on the genuine history, LsmVerifier must reject the tampered copy; and a GC output from which one policy-required entry was removed, with the whole later history re-balanced so that all equations still hold, must be rejected by the verifier's GC replay.",
+    text="Accept half: after every operation of generated histories (rollover ratios 1, 2, 8) an independent parser re-checks every manifest fragment: input == previous output, input == output + discard, discard == sum(removed) - sum(added), fragments chain through their roll-ups, final output == sum of listed digests, and each listed sst's name, stored setsum and setsum recomputed from a full walk agree; every verifier pass must accept or back off. Reject half: one hex digit of one recorded digest (+, -, I, O, D of a non-roll-up transaction) is altered with the line CRC fixed up; ManifestVerifier must reject the fragment and, when the offline verifier processes that fragment on the genuine history, LsmVerifier must reject the tampered copy; and a GC output from which one policy-required entry was removed, with the whole later history re-balanced so that all equations still hold, must be rejected by the verifier's GC replay. Content-level reject half: for a generated history one output of one compaction (merge or GC) gets a policy-required entry dropped (also the whole output), a value modified or an entry duplicated into an extra output file, and the whole recorded history is re-balanced so that every setsum equation still holds; the verifier must reject.",
     design_ref="DESIGN.md §5 C04",
     note=STORE_NOTE + "",
-    technique="stateful property-based testing with an independent balance checker (accept) and single-digit digest tampering (reject)",
+    technique="stateful property-based testing with an independent balance checker (accept) and re-balanced single-entry / single-digit tampering (reject)",
 )
 
 CHECKS["C06"] = dict(
